@@ -83,3 +83,181 @@ def run_matrix(binary, cases, configs, nshards=2, timeout=900):
         for n, r in ex.map(work, names):
             res[n] = r
     return res
+
+
+# ------------------------------------------------------------------------------------ comparing traces
+
+def trace_payloads(trace):
+    return [[p for (p, m) in row] for row in trace]
+
+
+def first_diff(ta, tb):
+    """first (cycle, out) where two traces differ, or None"""
+    for c, (ra, rb) in enumerate(zip(ta, tb)):
+        for o, (a, b) in enumerate(zip(ra, rb)):
+            if a != b:
+                return (c, o)
+    if len(ta) != len(tb):
+        return (min(len(ta), len(tb)), 0)
+    return None
+
+
+def has_xz(trace):
+    return any(m != 0 for row in trace for (_, m) in row)
+
+
+# ------------------------------------------------------------------------------------ shrinking
+
+def _sub_exprs(e):
+    """immediate sub-expressions with a rebuild function"""
+    k = e[0]
+    if k in ("un", "cast", "sign"):
+        return [(e[2], lambda n, e=e: (e[0], e[1], n))]
+    if k == "bin":
+        return [(e[2], lambda n, e=e: ("bin", e[1], n, e[3])), (e[3], lambda n, e=e: ("bin", e[1], e[2], n))]
+    if k == "tern":
+        return [(e[1], lambda n, e=e: ("tern", n, e[2], e[3])), (e[2], lambda n, e=e: ("tern", e[1], n, e[3])),
+                (e[3], lambda n, e=e: ("tern", e[1], e[2], n))]
+    if k == "cat":
+        out = []
+        for i, (a, n) in enumerate(e[1]):
+            out.append((a, lambda x, e=e, i=i: ("cat", e[1][:i] + [(x, e[1][i][1])] + e[1][i + 1:])))
+        return out
+    return []
+
+
+def expr_candidates(e, onebit):
+    """smaller replacements for expression e (same 1-bit-ness where it matters)"""
+    out = []
+    for sub, _ in _sub_exprs(e):
+        out.append(sub)
+    if e[0] != "lit":
+        out.append(("lit", 1, False, 0, 0) if onebit else ("lit", 8, False, 1, 0))
+    if e[0] == "cat" and len(e[1]) > 1:
+        for i in range(len(e[1])):
+            out.append(("cat", e[1][:i] + e[1][i + 1:]))
+    for sub, rebuild in _sub_exprs(e):
+        for c in expr_candidates(sub, False):
+            out.append(rebuild(c))
+    return out
+
+
+def stmt_candidates(s):
+    k = s[0]
+    out = []
+    if k == "assign":
+        for c in expr_candidates(s[2], False):
+            out.append(("assign", s[1], c))
+    elif k == "asel":
+        out.append(("assign", s[1], s[4]))
+        for c in expr_candidates(s[4], False):
+            out.append(("asel", s[1], s[2], s[3], c))
+    elif k == "if":
+        out += [None]                                   # delete
+        for i in range(len(s[2])):
+            out.append(("if", s[1], s[2][:i] + s[2][i + 1:], s[3]))
+        for i in range(len(s[3])):
+            out.append(("if", s[1], s[2], s[3][:i] + s[3][i + 1:]))
+        for i, x in enumerate(s[2]):
+            for c in stmt_candidates(x):
+                if c is not None:
+                    out.append(("if", s[1], s[2][:i] + [c] + s[2][i + 1:], s[3]))
+        for i, x in enumerate(s[3]):
+            for c in stmt_candidates(x):
+                if c is not None:
+                    out.append(("if", s[1], s[2], s[3][:i] + [c] + s[3][i + 1:]))
+        for c in expr_candidates(s[1], True):
+            out.append(("if", c, s[2], s[3]))
+    elif k == "case":
+        out += [None]
+        for i in range(len(s[2])):
+            out.append(("case", s[1], s[2][:i] + s[2][i + 1:], s[3]))
+        for i, (p, b) in enumerate(s[2]):
+            for j, x in enumerate(b):
+                for c in stmt_candidates(x):
+                    if c is not None:
+                        out.append(("case", s[1], s[2][:i] + [(p, b[:j] + [c] + b[j + 1:])] + s[2][i + 1:], s[3]))
+    return out
+
+
+def module_candidates(m):
+    """smaller variants of a module (same declarations; items/statements/expressions removed)"""
+    items = m["items"]
+    order = m["order"]
+    out = []
+
+    def with_items(new_items, new_order):
+        return {"decls": m["decls"], "items": new_items, "order": new_order}
+
+    # delete a whole item (only if nobody depends on it being driven: keep it simple and let the
+    # tools reject undriven outputs — an ERR result simply fails the predicate)
+    for i in range(len(items)):
+        ni = items[:i] + items[i + 1:]
+        no = [o - (1 if o > i else 0) for o in order if o != i]
+        out.append(with_items(ni, no))
+    for i, it in enumerate(items):
+        if it[0] == "assign":
+            for c in expr_candidates(it[2], False):
+                out.append(with_items(items[:i] + [("assign", it[1], c)] + items[i + 1:], order))
+        elif it[0] == "comb":
+            body = it[1]
+            for j, s in enumerate(body):
+                for c in stmt_candidates(s):
+                    nb = body[:j] + ([c] if c is not None else []) + body[j + 1:]
+                    out.append(with_items(items[:i] + [("comb", nb)] + items[i + 1:], order))
+                if s[0] in ("if", "case"):
+                    pass
+        else:
+            rst, body = it[1], it[2]
+            for j, s in enumerate(body):
+                nb = body[:j] + body[j + 1:]
+                if nb:
+                    out.append(with_items(items[:i] + [("ff", rst, nb)] + items[i + 1:], order))
+                for c in stmt_candidates(s):
+                    if c is not None:
+                        out.append(with_items(items[:i] + [("ff", rst, body[:j] + [c] + body[j + 1:])] + items[i + 1:], order))
+    return out
+
+
+def size_of(m):
+    return len(wire_size(m))
+
+
+def wire_size(m):
+    from .gen import rtl as G
+    return " ".join(G.item_wire(it) for it in m["items"])
+
+
+def shrink(m, stim, pred, budget=250):
+    """greedy: take the first smaller candidate for which pred(m', stim') still holds.
+    pred must return False for programs the tools reject."""
+    cur, cst = m, stim
+    calls = 0
+    improved = True
+    while improved and calls < budget:
+        improved = False
+        # fewer cycles first
+        while len(cst) > 1 and calls < budget:
+            calls += 1
+            if pred(cur, cst[:len(cst) // 2]):
+                cst = cst[:len(cst) // 2]
+                improved = True
+            elif pred(cur, cst[:-1]):
+                cst = cst[:-1]
+                calls += 1
+                improved = True
+            else:
+                break
+        cands = module_candidates(cur)
+        cands.sort(key=size_of)
+        for c in cands:
+            if calls >= budget:
+                break
+            if size_of(c) >= size_of(cur):
+                continue
+            calls += 1
+            if pred(c, cst):
+                cur = c
+                improved = True
+                break
+    return cur, cst
